@@ -7,3 +7,4 @@ INVARIANT YieldsInOrder
 INVARIANT ExhaustedMeansAll
 PROPERTY IndependentCursors
 PROPERTY ReadOnlyLenGetItem
+PROPERTY RefinesInd
